@@ -61,6 +61,44 @@ func (r *replayer) crashAndRestart(t *rapid.T, mode string) {
 	if err := r.env.Open(false); err != nil {
 		t.Fatalf("the wallet does not open after the crash: %v", err)
 	}
+	if mode == "live" && r.liveCrashAfter > 0 {
+		// the restarted process dies again, this time inside the real Start(): k commits into its
+		// catch-up loop / the first steps of its follower and worker goroutines
+		k := r.liveCrashAfter
+		r.liveCrashAfter = 0
+		r.ctl.FreezeAfter = r.ctl.Commits() + k
+		var startErr error
+		o := guard.Call(60*time.Second, func() { startErr = r.env.W.Start() })
+		if o.Kind != "done" {
+			t.Fatalf("WalletManager.Start after the crash: %s\n%s", o.Kind, o.Stack)
+		}
+		if startErr == nil {
+			// running: give the goroutines until the crash point (or until there is nothing left to do)
+			deadline := time.Now().Add(20 * time.Second)
+			for !r.ctl.Frozen() && time.Now().Before(deadline) {
+				s, err := r.env.W.SyncedTo()
+				if err == nil && s == r.node.Height() && !r.taskPendingQuiet() {
+					break
+				}
+				time.Sleep(200 * time.Microsecond)
+			}
+			o := guard.Call(30*time.Second, func() { r.env.W.Stop() })
+			if o.Kind != "done" {
+				t.Fatalf("HARNESS-ERROR: Stop of the instance that is being crashed did not return (%s) - see C20", o.Kind)
+			}
+		} else {
+			// Start gave up (a commit of its catch-up was lost): the process would exit here
+			r.env.RawDB.Close()
+		}
+		if r.ctl.Frozen() {
+			r.liveCrashes++
+		}
+		r.log = append(r.log, fmt.Sprintf("crash inside the live restart after %d more commits (Start error: %v, crash point reached: %v)", k, startErr, r.ctl.Frozen()))
+		r.ctl.Unfreeze()
+		if err := r.env.Open(false); err != nil {
+			t.Fatalf("the wallet does not open after the crash inside Start(): %v", err)
+		}
+	}
 	if mode == "live" {
 		if err := r.env.W.Start(); err != nil {
 			t.Fatalf("WalletManager.Start fails after the crash: %v", err)
@@ -246,6 +284,9 @@ func propC06(t *rapid.T) {
 		nodeMoves := rapid.Bool().Draw(t, "nodeMovesWhileDown")
 		ctl := xdb.NewCtl()
 		r := newReplayer(t, ctl)
+		if mode == "live" && rapid.IntRange(0, 2).Draw(t, "crashInsideStart") > 0 {
+			r.liveCrashAfter = int64(rapid.IntRange(1, 5).Draw(t, "liveCrashAfter"))
+		}
 		func() {
 			defer r.close()
 			ctl.FreezeAfter = ctl.Commits() + c
@@ -346,7 +387,11 @@ func propC06(t *rapid.T) {
 			if movedWhileDown > 0 {
 				moved = "node-moved-while-down:yes"
 			}
-			c06.Case(hkey(histKey, c, mode, second, nodeMoves), nontrivial, lbl, "restart:"+mode, fmt.Sprintf("crashes:%d", crashes), moved)
+			inStart := "crash-inside-live-start:no"
+			if r.liveCrashes > 0 {
+				inStart = "crash-inside-live-start:yes"
+			}
+			c06.Case(hkey(histKey, c, mode, second, nodeMoves, r.liveCrashes), nontrivial, lbl, "restart:"+mode, fmt.Sprintf("crashes:%d", crashes), moved, inStart)
 			if nontrivial {
 				c06.Sample(lbl+"/"+mode, 1, map[string]interface{}{"crash_after_commit": c, "of": total, "mode": mode, "crashes": crashes, "history": twin.journal, "replay_log": r.log})
 			}
